@@ -681,6 +681,11 @@ def execute(history, opts=None):
                 o = call(build, spec)
                 if isinstance(o, Raised):
                     ctx.count("build_raised")
+                    # a companion within eps/1000 of a valid catalogue object, built under the
+                    # current setting, is itself a valid object: the constructors compare with
+                    # the current tolerance (planarity, identical points, face orientation)
+                    if base is not None and M.power and kk is not None and kk >= M.sig:
+                        ctx.vio(step, "J2", "build/%s" % spec["t"], "ctor:companion", "%s->%s" % (spec["t"], disc(o)), {"j": M.sig, "k": kk, "got": detail(o), "base": op.get("base")})
                     ctx.event(step, kind, "!" + o.cls)
                     continue
                 world[op["id"]] = {"obj": o, "spec": spec, "spec0": spec if base is None else world[base]["spec0"], "base": base, "k": kk, "built": M.key()}
